@@ -292,10 +292,11 @@ def tree_cases(chk):
             cases.append({"segs": segs, "ops": ops})
     # random longer histories, mixed leaf kinds, bare lookups, "" segments
     for _ in range(chk.n(1500, 20000)):
-        nseg = rng.randint(2, 4)
-        paths = gen_paths(rng, list(range(1, nseg + 1)) if rng.random() < 0.2 else list(range(2, nseg + 2))[:nseg],
-                          rng.randint(1, 6), 5, rng.random() < 0.8)
-        files = [leaf_for(rng, p, [1, 2, 3, 4]) for p in paths]
+        pool = [2, 3, 4][:rng.randint(2, 3)]
+        if rng.random() < 0.2:
+            pool = [1] + pool                      # the empty segment ("a//b", "")
+        paths = gen_paths(rng, pool, rng.randint(1, 6), 5, rng.random() < 0.8)
+        files = [leaf_for(rng, p, [2, 3, 4], empty=1) for p in paths]
         ops = []
         for n in range(rng.randint(1, 12)):
             loc, leaf = rng.choice(files)
@@ -325,12 +326,13 @@ def gen_paths(rng, seg_ids_, n, maxdepth, want_prefix_free):
     return paths
 
 
-def leaf_for(rng, p, locale_ids):
+def leaf_for(rng, p, locale_ids, empty=None):
     """[locale id, leaf wire] whose Tree parts are exactly p"""
     r = rng.random()
     if r < 0.35 and len(p) >= 3:
         j = rng.randint(2, len(p) - 1)
-        return [p[0], [0, [p[1:j]], p[j:]]]
+        if p[1:j] != [empty]:                      # module "" would be falsy
+            return [p[0], [0, [p[1:j]], p[j:]]]
     if r < 0.7:
         return [rng.choice(locale_ids + [0]), [0, [], p]]
     return [rng.choice(locale_ids), [1, p]]
@@ -580,7 +582,8 @@ def observer_oracle(chk, case, ol, outs):
         snap = []
         for o in [ol2] + list(ol2.observers):
             js = o.toJSON()
-            snap.append((json.dumps(js["summary"], sort_keys=True, default=str), bool(o.error),
+            snap.append((repr(sorted((str(l), sorted(c.items())) for l, c in js["summary"].items())),
+                         bool(o.error),
                          flat_json(js["details"])))
         if outs2 != outs:
             chk.fail("quiet-changes-verdict", pub, {"quiet": lvl})
@@ -650,7 +653,7 @@ def gen_project(rng):
                     if ent[k] == "nofmt" and not ref[k][1]:
                         ent[k] = "changed"
                 per_locale[loc] = {"ent": ent, "obsolete": ["o%d" % i for i in range(rng.randint(0, 2))],
-                                   "junk": rng.randint(0, 2) if rng.random() < 0.4 else 0}
+                                   "junk": int(rng.random() < 0.3), "dup": rng.random() < 0.2}
             files[rel] = {"ref": ref, "l10n": per_locale}
         obsolete_files = {}
         for loc in locales:
@@ -672,6 +675,12 @@ def gen_project(rng):
 def value(words, fmt, changed):
     ws = [("Wort%d" if changed else "Word%d") % i for i in range(words)]
     return " ".join(ws + (["%S"] if fmt else []))
+
+
+def dup_key(st):
+    """the key written twice (an error of its own), if any"""
+    present = [k for k, how in st["ent"].items() if how != "missing"]
+    return present[:1] if st.get("dup") else []
 
 
 def write_project(root, proj):
@@ -711,6 +720,10 @@ def write_project(root, proj):
                             f.write("%s = %s\n" % (k, value(w, False, True)))
                     for j in range(st["junk"]):
                         f.write("junk line %d\n" % j)
+                    for k in dup_key(st):
+                        w, fmt = fd["ref"][k]
+                        f.write("%s = %s\n" % (k, value(w, fmt and st["ent"][k] != "nofmt",
+                                                         st["ent"][k] != "same")))
                     for o in st["obsolete"]:
                         f.write("%s = Obsolete\n" % o)
         for loc, rel in cfg["obsolete_files"].items():
@@ -775,7 +788,7 @@ def expected_cli(proj):
                 for o in st["obsolete"]:
                     bump(loc, "obsolete")
                     detail(loc, rel, {"obsoleteEntity": o}, "obsoleteEntity")
-                for j in range(st["junk"]):
+                for j in range(st["junk"] + len(dup_key(st))):
                     bump(loc, "errors")
                     detail(loc, rel, "error", "error")
         for loc, rel in cfg["obsolete_files"].items():
